@@ -9,10 +9,11 @@
      removeGTPTunnelPeer, add/removeInternalApplicationIDAndGetP4rtEntry, configureApplicationMeter /
      configureSessionMeter (release-on-error closures, "0 is not a valid cell"), configureMeters, resetMeters,
      updateTunnelPeersBasedOnFARs, modifyUP4ForwardingConfiguration (early returns; the error of a failed
-     application id allocation is dropped; ALREADY_EXISTS / OK statuses and an EMPTY p4 error list are
-     tolerated), sendCreate / sendUpdate / sendDelete, SendMsgToUPF's cause; handleSessionEstablishment /
+     application id allocation is dropped; ALREADY_EXISTS / OK statuses are tolerated, an empty p4 error
+     list is a failure), sendCreate / sendUpdate / sendDelete, SendMsgToUPF's cause; handleSessionEstablishment /
      Modification / DeletionRequest: a rejected establishment drops the session, a rejected deletion KEEPS it,
-     a rejected modification keeps the in-place updates (Update PDR/FAR/QER write into the stored slices:
+     a rejected modification keeps the in-place updates (Update PDR/FAR/QER write into the stored slices,
+     Update PDR keeping the stored ctrID:
      GetSession returns a copy that shares the backing arrays; Create* append beyond the stored length).
    Every Write RPC consults the next element of the fault list of the event ([] = no further fault).
    What is abstracted: table entries (only WHICH Write happens and how it is answered matters for the ids),
@@ -278,7 +279,8 @@ Definition removeInternalApplicationID (sid : N) (pid key : N) : M unit :=
 Fixpoint find_far (id : N) (fars : list far) : option far :=
   match fars with [] => None | f :: r => if f_id f =? id then Some f else find_far id r end.
 
-Definition tolerated (r : wres) : bool := match r with WFail => false | _ => true end.
+(* ALREADY_EXISTS / OK statuses are tolerated; an EMPTY p4 error list (status UNKNOWN without details) is an error *)
+Definition tolerated (r : wres) : bool := match r with WOk | WExists => true | WFail | WUnk => false end.
 
 Definition modifyOnePdr (sid : N) (fars : list far) (m : method) (p : pdr) : M unit :=
   if negb (p_prec_ok p) then fail else
@@ -331,8 +333,9 @@ Definition sendUpdate (sid : N) (all updated : rules) : M unit :=
   modifyUP4ForwardingConfiguration sid (r_pdrs all) (r_fars all) MMod.
 
 Definition sendDelete (sid : N) (r : rules) : M unit :=
-  forM_ (r_pdrs r) (fun p => add_set PCtr (p_ctr p)) ;;;
   modifyUP4ForwardingConfiguration sid (r_pdrs r) (r_fars r) MDel ;;;
+  (* the entries are gone: only now are their counter cells handed back *)
+  forM_ (r_pdrs r) (fun p => add_set PCtr (p_ctr p)) ;;;
   resetMeters sid (r_qers r) ;;;
   forM_ (r_fars r) (removeGTPTunnelPeer sid) ;;;
   forM_ (r_pdrs r) (fun p => if p_uplink p then ret tt else modify_u (fun u => set_ue (set_remove sid (ue_known u)) u)).
@@ -362,6 +365,22 @@ Section Replace.
     end.
 End Replace.
 
+(* s.UpdatePDR: as UpdateFAR / UpdateQER, but the counter cell of the stored PDR is kept *)
+Fixpoint update_pdr (x : pdr) (l : list pdr) : option (list pdr) :=
+  match l with
+  | [] => None
+  | y :: r => if p_id y =? p_id x then Some (set_ctr (p_ctr y) x :: r)
+              else match update_pdr x r with Some r' => Some (y :: r') | None => None end
+  end.
+Fixpoint apply_pdr_updates (ups : list pdr) (l : list pdr) : list pdr * list pdr :=
+  match ups with
+  | [] => (l, [])
+  | x :: r => match update_pdr x l with
+              | Some l' => let '(l'', found) := apply_pdr_updates r l' in (l'', x :: found)
+              | None => apply_pdr_updates r l
+              end
+  end.
+
 Record obs := Obs { o_acc : bool; o_log : list (site * wres); o_delfail : bool; o_bad : bool }.
 Definition sessions := list (N * rules).
 Record state := State { s_u : up4; s_store : sessions }.
@@ -385,7 +404,7 @@ Definition step (s : state) (o : op) (pops : list N) (faults : list wres) : stat
     | None => (s, Obs false [] false false)
     | Some r0 =>
       let cp := map (set_ctr 0) (mm_cpdrs m) in
-      let '(wp, fp) := apply_updates p_id (map (set_ctr 0) (mm_updrs m)) (r_pdrs r0 ++ cp) in
+      let '(wp, fp) := apply_pdr_updates (map (set_ctr 0) (mm_updrs m)) (r_pdrs r0 ++ cp) in
       let '(wf, ff) := apply_updates f_id (mm_ufars m) (r_fars r0 ++ mm_cfars m) in
       let '(wq, fq) := apply_updates q_id (mm_uqers m) (r_qers r0 ++ mm_cqers m) in
       let all := Rules wp wf wq in
